@@ -243,6 +243,12 @@ def construct_corpus():
            "a{01}", "a{1,02}", "a{08}", "a{1,09}", "a{010,9}", "a{011,10}", "a{10,010}", "(a|b){0012,11}?", "a{007}", "a{0x2}", "a{,2}", "a{}", "a{1,2", "a{1 ,2}", "{1}", "a{2}{0}"]
     out += CLASSES + ASCII_CLASSES + UNI + UNI_BIG + ["\\" + c for c in ESCAPED] + list(ESCAPED) + HEX
     out += ["[" + c + "]" for c in CLASSES + ASCII_CLASSES + UNI] + ["[^" + c + "]" for c in CLASSES + ASCII_CLASSES]
+    # names that are keys of internal tables, near-misses of documented names, and case variants: none is a documented category
+    for name in ["ASCII", "UTF-8", "UTF8", "ascii", "Ascii", "L1", "Lx", "LL", "lu", "letter", "LETTER", "Letters", "Greekk", "Gree", "greek", "Han1", "",
+                 "s", "d", "w", "alpha", ":alpha:", "Any", "All", "Is_Greek", "IsGreek", "Zs ", " Zs", "Z-s", "Cc", "Cn", "Co", "Cs", "Cf", "C", "Other"]:
+        out += ["\\p{%s}" % name, "\\P{%s}" % name, "[\\p{%s}]" % name, "a\\p{%s}+" % name]
+    for name in ["ascii", "ASCII", "alphanum", "Alpha", "space ", "w", "blank1", ""]:
+        out += ["[[:%s:]]" % name, "[:%s:]" % name]
     return out
 
 
